@@ -394,7 +394,7 @@ func (t *tracer) TransitionEnd(tx *am.Transition) {
 		if wasCalled && cfg.CalledExclude {
 			match = false
 			break
-		} else if !wasCalled && !cfg.CalledExclude {
+		} else if wasCalled && !cfg.CalledExclude {
 			match = true
 			break
 		}
